@@ -201,6 +201,9 @@ def translate(row, sid, cfg=None):
         elif k == 'expectEnd':
             out.append(f"expectEnd {r['x']} {'-' if r['got'] is None else r['got']}")
             out.append(f"oNHandlers {r['b']} {r['bus']['nh']}")
+        elif k == 'expectCancel':
+            out.append(f"expectCancel {r['x']}")
+            out.append(f"oNHandlers {r['b']} {r['bus']['nh']}")
         elif k == 'walWrite':
             out.append(f"walWrite {r['p']} {r['b']} {r['e']} {int(r['ok'])}")
             if r['ok'] and not r.get('faithful', True):
